@@ -166,30 +166,50 @@ pub(crate) mod verif_enc {
         }
     }
 
-    /// A sink that accepts a solver-chosen part (>= 1 byte, <= 8) of every write; std's real write_all loop
-    /// runs against it. General byte-wise cursor.
-    pub struct ShortSink { pub ci: usize, pub wi: usize, pub len: usize, pub writes: usize, pub flushed_len: usize, pub mismatch: bool, pub beyond: bool }
+    /// A sink whose write accepts only a solver-chosen part (>= 1 byte) of what is offered, then everything of the
+    /// follow-up call: every write_all is split once at an arbitrary point (std's real write_all loop runs: 2 iterations).
+    /// For single-record files (chunk size 1): the expected record is laid out once in a 36-byte array and every
+    /// accepted byte is compared against it at the running offset.
+    pub struct ShortSink { pub exp: [u8; 36], pub exp_len: usize, pub built: bool, pub pos: usize, pub writes: usize, pub flushed_len: usize,
+                           pub mismatch: bool, pub beyond: bool, pub limit: bool, pub in_rest: bool, pub splits: usize }
+    impl ShortSink {
+        pub fn new() -> Self { ShortSink { exp: [0; 36], exp_len: 0, built: false, pos: 0, writes: 0, flushed_len: 0, mismatch: false, beyond: false, limit: false, in_rest: false, splits: 0 } }
+        fn build(&mut self) {
+            if self.built { return; }
+            self.built = true;
+            if unsafe { NSEAL } != 1 { self.limit = true; return; }
+            let e = tget(0);
+            let a = unsafe { AADLEN };
+            // BE64(0) || flag || len (as authenticated) || ct || tag
+            vrep!(8, j, { self.exp[8 + j] = e.ad[a + j]; });
+            let t = e.tag.to_le_bytes();
+            if e.ptlen == 0 {
+                vrep!(16, j, { self.exp[16 + j] = t[j]; });
+                self.exp_len = 32;
+            } else {
+                self.exp[16] = e.ct[0];
+                vrep!(16, j, { self.exp[17 + j] = t[j]; });
+                self.exp_len = 33;
+                if e.ptlen != 1 { self.limit = true; }
+            }
+        }
+    }
     impl Write for ShortSink {
         fn write(&mut self, buf: &[u8]) -> std::io::Result<usize> {
             self.writes += 1;
             if buf.len() == 0 { return Ok(0); }
-            let k: usize = kani::any();
-            kani::assume(k >= 1 && k <= buf.len() && k <= 8);
-            let a = unsafe { AADLEN };
-            vrep!(8, j, {
-                if j < k {
-                    if self.ci >= unsafe { NSEAL } { self.beyond = true; } else {
-                        let e = tget(self.ci);
-                        if buf[j] != record_byte(&e, self.ci, a, self.wi) { self.mismatch = true; }
-                        self.wi += 1;
-                        if self.wi == 32 + e.ptlen { self.ci += 1; self.wi = 0; }
-                    }
-                }
-            });
-            self.len += k;
+            if buf.len() > 20 { self.limit = true; return Ok(buf.len()); }
+            self.build();
+            let k: usize = if self.in_rest { buf.len() } else { kani::any() };
+            kani::assume(k >= 1 && k <= buf.len());
+            if !self.in_rest && k < buf.len() { self.in_rest = true; self.splits += 1; } else { self.in_rest = false; }
+            if self.pos + k > self.exp_len { self.beyond = true; self.pos += k; return Ok(k); }
+            let p = self.pos;
+            vrep!(20, j, { if j < k && buf[j] != self.exp[p + j] { self.mismatch = true; } });
+            self.pos += k;
             Ok(k)
         }
-        fn flush(&mut self) -> std::io::Result<()> { self.flushed_len = self.len; Ok(()) }
+        fn flush(&mut self) -> std::io::Result<()> { self.flushed_len = self.pos; Ok(()) }
     }
 
     /// Post-check on the seal log: nonce_i = i; AAD_i = aad || BE32(last_i) || BE32(|chunk i|); the sealed
@@ -355,27 +375,28 @@ pub(crate) mod verif_enc {
         core::mem::forget(res);
     }
 
-    /// C10/C01: a sink that accepts a solver-chosen part (>= 1 byte) of every write: result and bytes unchanged.
-    /// std's real write_all loop runs (unwind 34 covers a 33-byte record written one byte at a time).
+    /// C10/C01/C02: a sink that accepts only a solver-chosen part of each write (every write_all split once at an arbitrary
+    /// point; std's real write_all loop): result and bytes unchanged.
     #[kani::proof]
     #[kani::stub(crate::chapoly_encrypt_noise, seal_model)]
-    #[kani::unwind(34)]
+    #[kani::unwind(4)]
     pub fn enc_short_writes_cs1() {
         let data: [u8; MAXP] = kani::any();
         let len: usize = kani::any();
         kani::assume(len <= 1);
         unsafe { AADLEN = 0; }
         let mut r = SR::new(data, len, true);
-        let mut w = ShortSink { ci: 0, wi: 0, len: 0, writes: 0, flushed_len: 0, mismatch: false, beyond: false };
+        let mut w = ShortSink::new();
         let key = [0x11u8; 32];
         let res = encrypt_chunks(&mut r, &mut w, &key, &[], 1);
+        assert!(!w.limit, "[LIMIT] write-call structure outside what this harness models (a call > 20 bytes)");
         assert!(res.is_ok(), "[C01,C02,C10] partial writes are harmless: encryption succeeds");
         let n = check_seals(&r, &[], 1, true);
-        assert!(!w.mismatch && !w.beyond, "[C10,C01,C02,C06] with partial writes the byte stream still equals the documented layout");
-        assert!(w.ci == n && w.wi == 0 && w.len == 32 * n + len, "[C10,C08] with partial writes every record is still written completely");
-        assert!(w.flushed_len == w.len, "[C10] everything flushed");
-        kani::cover!(w.writes > 6);
-        kani::cover!(len == 1);
+        assert!(!w.mismatch && !w.beyond, "[C10,C01,C02,C06] with partial writes the byte stream still equals the documented layout (no byte lost or repeated)");
+        assert!(n == 1 && w.pos == w.exp_len && w.pos == 32 + len, "[C10,C01,C02,C08] with partial writes every record is still written completely");
+        assert!(w.flushed_len == w.pos, "[C10] everything flushed");
+        kani::cover!(w.splits >= 2);
+        kani::cover!(len == 1 && w.splits == 0);
         core::mem::forget(res);
     }
 }
